@@ -7,8 +7,8 @@ import NjectProofs.IncludeMono
 -/
 namespace Nject
 
-/-- the same provider, Required instead of Desired -/
-def reqF (f : IP) : IP := { f with c := { f.c with required := true, desired := false } }
+/-- the same provider, Required instead of Desired or auto-desired (`wanted` is computed from the other two flags) -/
+def reqF (f : IP) : IP := { f with wanted := false, c := { f.c with required := true, desired := false } }
 
 /-- `y` is `x` with provider `d` made Required -/
 def RelD (d : Nat) (x y : Chain) : Prop :=
@@ -29,12 +29,12 @@ theorem RelD_upd {d : Nat} {x y : Chain} (h : RelD d x y) (i : Nat) (g : IP → 
 
 theorem RelD_fields {d : Nat} {x y : Chain} (h : RelD d x y) (j : Nat) :
     (y.get j).inc = (x.get j).inc ∧ (y.get j).cannot = (x.get j).cannot ∧ (y.get j).excluded = (x.get j).excluded ∧
-    (y.get j).wanted = (x.get j).wanted ∧ (y.get j).usedBy = (x.get j).usedBy ∧
+    (j ≠ d → (y.get j).wanted = (x.get j).wanted) ∧ (y.get j).usedBy = (x.get j).usedBy ∧
     (j ≠ d → (y.get j).c = (x.get j).c) := by
   rw [h.2 j]
   by_cases hjd : j = d
-  · rw [if_pos hjd]; exact ⟨rfl, rfl, rfl, rfl, rfl, fun hn => absurd hjd hn⟩
-  · rw [if_neg hjd]; exact ⟨rfl, rfl, rfl, rfl, rfl, fun _ => rfl⟩
+  · rw [if_pos hjd]; exact ⟨rfl, rfl, rfl, fun hn => absurd hjd hn, rfl, fun hn => absurd hjd hn⟩
+  · rw [if_neg hjd]; exact ⟨rfl, rfl, rfl, fun _ => rfl, rfl, fun _ => rfl⟩
 
 theorem localCheck_reqF (ch : Chain) (f : IP) : localCheck ch (reqF f) = localCheck ch f := rfl
 
@@ -89,7 +89,7 @@ theorem checkPass_sim (b : Bool) (d : Nat) : ∀ (todo : List Nat) (x y : Chain)
             · have dm := checkPass_DM b todo _ _ _ x' redo' h
               exact (dm d).2 (by rw [← hid]; exact hcan)
         · have hc : (y.get i).c = (x.get i).c := hf.2.2.2.2.2 hid
-          rw [hc, hf.2.2.2.1, hf.2.2.1, hf.1, hf.2.2.2.2.1]
+          rw [hc, hf.2.2.2.1 hid, hf.2.2.1, hf.1, hf.2.2.2.2.1]
           by_cases hr : (x.get i).c.required = true
           · rw [if_pos hr] at h; cases h
           · rw [if_neg hr] at h ⊢
